@@ -16,6 +16,7 @@ import SxVerif.Proofs.GenC13
 import SxVerif.Proofs.ComposeErr
 import SxVerif.Props.C07
 import SxVerif.Generated.Problems
+import SxVerif.Generated.JsonWriter
 
 namespace SxVerif.C13
 open SxVerif.Gen SxVerif.Spec.Gen SxVerif.Compose SxVerif.Spec.Compose
@@ -166,5 +167,17 @@ example : errors (([.entry (some (.v4 1 true)) 80, .entry none 0, .entry (some (
       .entry (some (.v4 3 true)) 1].take 4).map expectPair) = [.ip, .port, .json] ∧
     probes (([.entry (some (.v4 1 true)) 80, .entry none 0, .entry (some (.v4 2 true)) 0, .badJson,
       .entry (some (.v4 3 true)) 1].take 4).map expectPair) = [(.v4 1 true, 80)] := by decide
+
+
+/-- (T) every error handed to the logger becomes one record at once, however many there are: the zap logger is the
+    production configuration with sampling switched off and no further option (its sink is the process's stderr,
+    locked, unbuffered: one `write(2)` per record, nothing kept in memory that a later `Sync` would have to save), and
+    `(*logger).Error` is one call of it.  (zap itself is trusted; the dynamic side are the `…/mass`, `…/slowerr` and
+    `…/errflood` cases of `e2eapp` and component `e2eerr`.) -/
+theorem error_records_written_through :
+    SxVerif.Generated.errorLoggerConfig = "zap.NewProductionConfig()" ∧
+    SxVerif.Generated.errorLoggerConfAssigns = [("Sampling", "nil")] ∧
+    SxVerif.Generated.errorLoggerCtor = ("conf.Build", 0) ∧
+    SxVerif.Generated.loggerErrorBody = ["l.zapl.Error(l.label, zap.Error(err))"] := by decide
 
 end SxVerif.C13
